@@ -132,6 +132,15 @@ def make_requests(rng, ds, prof):
     add("route", 1); add("access", 1); add("summary", 1)
     add("route", 2); add("summary", 2, True)
     add("access", 3); add("route", 3)
+    # WIDE accessibility maps: every stop offered at 0 s, the whole day, no travel-time limit, departure and arrival direction:
+    # the map then depends on (nearly) every trip of the scenario, so a timetable that is only PARTLY the one on disk shows
+    cs = ds.conns()
+    t_lo = max(0, min([c[4] for c in cs] or [3600]) - 600)
+    t_hi = min(115199, max([c[5] for c in cs] or [3600]) + 600)
+    allrows = [(n, 0, 0) for n in ds.nodes][:12]
+    for scen, fwd in ((1, 1), (4, 0), (1, 0)):
+        qw = dict(scen=scen, time=t_lo if fwd else t_hi, minw=60, maxtt=gen.MAX_INT, maxacc=1200, maxegr=1200, maxtr=1200, maxfw=-1, fwd=fwd)
+        out.append(dict(kind="access", path=l3.access_qs(qw), acc=allrows, egr=allrows, scen=scen, fwd=fwd))
     add("route", 1)          # the LAST request before a refresh is on scenario 2, whose definition the refresh changes: the
     return out               # one-entry cache then holds exactly the set a refresh must not keep or rebuild from old definitions
 
